@@ -61,7 +61,7 @@ def case_strategy(unit):
         "cell_scale": st.sampled_from([1.0, 1.0, 1.0, 3.0, 12.0]), "alias": st.integers(0, 5),
         "near_special": st.one_of(st.none(), st.none(), st.none(), st.tuples(S.logfl(1e-8, 1e-2), st.sampled_from([-1.0, 1.0])).map(lambda t: t[0] * t[1])),
         "byname": st.booleans(), "upper": st.booleans(), "blank": st.booleans(), "name_only": st.booleans(),
-        "cell_as": st.sampled_from(["list", "list", "array"]),   # (a tuple cell makes the debug logging of six Laue classes raise TypeError: observed, outside the documented list/array input, not claimed)
+        "cell_as": st.sampled_from(["list", "list", "array", "list", "array", "int-list", "int-array"]),   # (a tuple cell makes the debug logging of six Laue classes raise TypeError: observed, outside the documented list/array input, not claimed)
         "npseed": st.integers(0, 2 ** 31 - 1), "npseed2": st.integers(0, 2 ** 31 - 1),
         "mod": st.sampled_from(["tools", "laue"]), "pick": S.fl(0, 1)})
 
@@ -98,6 +98,8 @@ def build(case, max_points=1500):
     if ns is not None and not case["orth"] and g.crystal_system == "triclinic" and ch != "rhombohedral":
         cell = [cell[0], cell[1], cell[2], 90.0 + ns, 90.0 - 0.7 * ns, 90.0 + 0.4 * ns]
     cell = [float(x) + 0.0 for x in cell]
+    how = case.get("cell_as", "list")
+    cell, typed_cell = S.whole_number_variant(cell, how if how.startswith("int") else ("float-array" if how == "array" else "float-list"))
     G, Gs, V = O.metric(cell)
     scale = 1.1 if (g.Laue == "-3" and ch == "rhombohedral") else 1.0
     cap = min(0.6, 0.5 * (max_points * 3 / (4 * math.pi * V)) ** (1.0 / 3))
@@ -152,8 +154,7 @@ def build(case, max_points=1500):
     else:
         B.kw = dict(sgno=no, cell_choice=ch)
     # how the caller holds the cell: list, tuple, or one float ndarray (read-only: the generators must not modify it)
-    how = case.get("cell_as", "list")
-    B.cell_arg = O.ro(cell) if how == "array" else (tuple(cell) if how == "tuple" else list(cell))
+    B.cell_arg = tuple(cell) if how == "tuple" else typed_cell
     B.oblique = any(abs(x - 90.0) > 1e-9 for x in cell[3:6]) and g.crystal_system in ("triclinic", "monoclinic", "trigonal") and \
         (ch == "rhombohedral" or g.crystal_system in ("triclinic", "monoclinic"))
     return B
